@@ -32,7 +32,7 @@ ASSUMPTIONS = [
     'cross-check match strings are not asserted',
 ]
 
-KINDS = {'s': 'sleep', 'p': 'spin', 'a': 'allocate', 'v': 'sigsegv', 'k': 'sigkill', 'w': 'wrapper-with-hanging-child'}
+KINDS = {'s': 'sleep', 't': 'sleep-ignoring-SIGTERM', 'p': 'spin', 'a': 'allocate', 'v': 'sigsegv', 'k': 'sigkill', 'w': 'wrapper-with-hanging-child'}
 
 
 def kill_hanging_children():
@@ -57,7 +57,7 @@ def component(dd, ctx, acc):
     fn = os.path.join(wd, 'cand.smt2')
     with open(fn, 'w') as f:
         f.write('(assert true)\n')
-    for kind in 'spavkw':
+    for kind in 'stpavkw':
         for memout in (None, 200):
             if kind == 'a' and memout is None:
                 continue
@@ -126,7 +126,7 @@ def component(dd, ctx, acc):
                     os.kill(pid, 9)
                 except OSError:
                     pass
-            if kind in 'spw':
+            if kind in 'stpw':
                 if not (ri.exit is None and ri.out is None and ri.err is None):
                     acc.violation(f'component-runinfo/{KINDS[kind]}', f'timed-out run recorded as {ri!r}', case)
             if kind in 'vk' and (ri.exit is None or ri.exit >= 0):
@@ -180,7 +180,7 @@ def default_limits(dd, ctx, acc):
 def fault_case(draw, force_memout_profile=False):
     c = draw(gen_run.run_case(jobs=(1, 3), formats=('default', ), with_cc=False, with_delay=False,
                               comparisons=False, max_asserts=4, kinds=['monotone', 'mixed', 'hash']))
-    kinds = draw(st.lists(st.sampled_from('spavkw'), min_size=1, max_size=3, unique=True))
+    kinds = draw(st.lists(st.sampled_from('stpavkw'), min_size=1, max_size=3, unique=True))
     mod = draw(st.sampled_from([12, 16, 24]))
     th = vspec.token_hash(vspec.tokens_of_text(c['text']))
     # choose a salt under which the original itself is not faulty
